@@ -80,7 +80,8 @@ def check_scan_path(lang, data):
     return None
 
 
-WAYS = ["rel-file", "abs-file", "rel-dir", "root-dot", "abs-root-from-sibling", "dotdot-from-sibling", "dotdot-from-subdir"]
+WAYS = ["rel-file", "abs-file", "rel-dir", "root-dot", "abs-root-from-sibling", "dotdot-from-sibling", "dotdot-from-subdir", "abs-file-from-prefix-sibling",
+        "abs-root-from-prefix-sibling"]
 
 
 def check_check_command(lang, data, ways):
@@ -88,6 +89,8 @@ def check_check_command(lang, data, ways):
     with tree.temp_tree({rel: data}) as root:
         other = root.parent / "other"
         other.mkdir()
+        prefix_sibling = root.parent / "roo"  # a sibling whose path is a plain string prefix of the root's path
+        prefix_sibling.mkdir()
         for way in ways:
             cwd, path = {
                 "rel-file": (root, rel),
@@ -97,6 +100,8 @@ def check_check_command(lang, data, ways):
                 "abs-root-from-sibling": (other, str(root)),
                 "dotdot-from-sibling": (other, "../root/pkg"),
                 "dotdot-from-subdir": (root / "pkg", f"../pkg/prog.{tree.EXT[lang]}"),
+                "abs-file-from-prefix-sibling": (prefix_sibling, str(root / rel)),
+                "abs-root-from-prefix-sibling": (prefix_sibling, str(root)),
             }[way]
             res = cli.run_check(cwd, [path], quiet=False)
             if res.exc:
@@ -232,6 +237,8 @@ def templates(col, lang, depths, flat_lines, deep_all=False):
             col.eval({"lang": lang, "text": t, "entry": ["rel-dir"] if d <= 100 else []}, nontrivial=True, labels=[f"class:deep", f"depth:{d}", f"lang:{lang}"], distinct_key=f"{lang}:{kind}:{d}",
                      timeout=60 if d <= 1000 else 400)
             col.samples = [s if not (isinstance(s, dict) and len(s.get("text", "")) > 300) else dict(s, text=s["text"][:300] + "...(truncated)") for s in col.samples]
+    # a file WITH findings (> 30 and > 60 lines) through every way of naming it: the listing code paths run too
+    col.eval({"lang": lang, "text": tree.flat_file(lang, [35, 64, 3]), "entry": list(WAYS) + ["scan_path", "scan_command"]}, nontrivial=False, labels=["class:findings-all-ways", f"lang:{lang}"])
     t = M.long_flat(lang, flat_lines)
     col.eval({"lang": lang, "text": t, "entry": ["scan_path"]}, nontrivial=False, labels=["class:long-flat", f"lang:{lang}"], distinct_key=f"{lang}:flat:{flat_lines}")
     col.samples = [s if not (isinstance(s, dict) and len(s.get("text", "")) > 300) else dict(s, text=s["text"][:300] + "...(truncated)") for s in col.samples]
